@@ -84,6 +84,14 @@ def import_closure(module):
     return seen
 
 
+def leanchecker(module):
+    """Independent re-check of the compiled module (and everything it imports) by leanchecker."""
+    rc, out = sh(["lake", "env", "leanchecker", module], cwd=LEAN, timeout=7200)
+    if rc != 0:
+        raise Broken("leanchecker", "leanchecker %s failed:\n%s" % (module, out[-3000:]))
+    return True
+
+
 def source_scan(module):
     """Reject sorry/admit/axiom/native_decide/bv_decide in the Lean sources the module depends on."""
     bad = []
